@@ -8,8 +8,8 @@ from vlib.verdict import Case
 
 PROPERTY = 'C14'
 MANIFEST = {
- 'level_text': 'Lean 4 theorems about a model of nested-command evaluation (one proxy per bracket level with its args/counter cursor, the nesting maximum, the reply / noReply / ignored-tag substitution rules, truncation to reply.maximumLength, errors and silent commands stopping everything, the exception mapping of _callCommand incl. the IndexError path of an emptied argument list) and of command dispatch (canonicalName, getCommand with nested command groups and the own-name rule, disabled commands, findCallbacksForArgs with longest prefix / own name / defaultPlugins / importantPlugins, the three-way decision of finalEval). For every token tree, every behaviour of the command bodies and every dispatch function: the sub-commands that run form a sub-sequence of the left-to-right post-order of the tree (none twice, inner first, left to right); when dispatch raises nothing they form a prefix (nothing runs after a stop) and the whole post-order when the line is answered; when every command replies or calls noReply the evaluation is exactly function application (each sub-command replaced by its truncated reply text as one argument, or by nothing); no sub-command deeper than the maximum runs and such a line is always stopped (with the nesting error when everything replies). For every set of plugins: getCommand returns a prefix of its arguments naming an enabled command, a plugin-qualified command reaches that plugin, an ambiguous bare name is reported and runs nothing, canonicalName is idempotent. Kernel-checked; the model is tied to src/callbacks.py by a differential correspondence run on a live bot (real Owner/Misc/... plus instrumented synthetic plugins with overlapping names, command groups and threaded commands; also end to end through Owner.doPrivmsg and the tokenizer) that evaluates the property statement on the implementation call log.',
- 'level_note': 'Trusted: Lean kernel (axioms propext/Classical.choice/Quot.sound only); the correspondence harness (generators, introspection of the loaded plugins into the model\'s plugin table, canonicalisation of replies). Modelled and proved: evalArgs/finalEval/reply/noReply/error control flow as a big-step evaluator, nesting maximum, getCommand/isCommandMethod/isDisabled, findCallbacksForArgs, canonicalName (ASCII). Not modelled: thread scheduling (a threaded command continues the same evaluation on its own thread; the harness joins threads), capability checks in _callCommand (C01), invalidCommand handlers (outcome "invalid"), command bodies that use irc more than once, Unicode case folding in canonicalName, registry lookup of the configuration values.',
+ 'level_text': 'Lean 4 theorems about two models of nested-command evaluation and one of command dispatch. (1) A big-step evaluator over token trees (one proxy per bracket level with its args/counter cursor, the nesting maximum, the reply / noReply / ignored-tag substitution rules, truncation to reply.maximumLength, errors and silent commands stopping everything, the exception mapping of _callCommand incl. the IndexError path of an emptied argument list, the invalidCommand chain with Misc.invalidCommand for whenNotCommand on and off): for every tree, every behaviour of single-use command bodies and every dispatch function the sub-commands that run form a sub-sequence of the left-to-right post-order (none twice, inner first, left to right); a prefix when dispatch raises nothing and unknown commands are errors (nothing runs after a stop); the whole post-order when the line is answered; exactly function application when every command replies or calls noReply; nothing deeper than the maximum runs. (2) A small-step machine of the proxy objects themselves (heap of proxies, call stacks of frames, bodies that use irc any number of times, exception unwinding to _callCommand / the firewall / the invalidCommand chain, threaded commands handed to new threads): for every schedule and every body the log only grows, every logged call belongs to a proxy that did its finalEval, nothing deeper than the maximum runs; witnesses proved on the machine that a body replying twice breaks "nothing runs after a stop" and, next to a threaded sub-command, "exactly once" (recorded finding). (3) Dispatch and the disabled-commands store: getCommand returns a prefix of its arguments naming an enabled command, a plugin-qualified command reaches that plugin, an ambiguous bare name is reported and runs nothing, canonicalName is idempotent; after any history of disable / enable a command is disabled for a plugin iff the last global operation or the last operation about that plugin disabled it, an enable answered with an error changes nothing, the live store and supybot.commands.disabled always agree (a restart changes nothing). Kernel-checked; tied to src/callbacks.py and plugins/Owner by a differential correspondence run on a live bot (real plugins plus instrumented synthetic ones with overlapping names, command groups, threaded and multi-reply commands, invalidCommand handlers; every evaluation on both models; the real disable/enable commands; end to end through Owner.doPrivmsg and the tokenizer) that evaluates the property statement on the implementation.',
+ 'level_note': 'Trusted: Lean kernel (axioms propext/Classical.choice/Quot.sound only); harness/extractors/canonicalname.py; the correspondence harness (generators, introspection of the loaded plugins into the model\'s plugin table, canonicalisation of replies). Not proved: that the machine refines the big-step evaluator for single-use bodies (both are compared with the implementation on every case instead), order / once-ness on the machine beyond the safety invariants (false in general: finding C14-extra-reply-resumes-enclosing). Not modelled: the interleaving of real threads below the granularity of one proxy method call, capability checks in _callCommand (C01), the bodies of invalidCommand handlers other than Misc\'s (abstract), Unicode case folding in canonicalName, registry lookup of the configuration values, the optional(\'plugin\') argument parsing of Owner.disable/enable.',
  'technique': 'Lean 4 proof (structural induction on token trees / plugin trees) + differential correspondence on a live bot',
  'design_ref': 'DESIGN.md §6 C14',
 }
